@@ -256,6 +256,8 @@ impl World {
             return;
         }
         let mut decide = s.decide.take();
+        // the strategy (and its monitors) may touch the filesystem: never intercept that
+        let was_busy = TL.try_with(|t| t.busy.replace(true)).unwrap_or(true);
         let pick = {
             let view = SchedView { step: s.steps, runnable: runnable.clone(), pending: &s.waiting, last: s.last };
             match decide.as_mut() {
@@ -263,6 +265,7 @@ impl World {
                 None => runnable[0],
             }
         };
+        let _ = TL.try_with(|t| t.busy.set(was_busy));
         s.decide = decide;
         let pick = if runnable.contains(&pick) { pick } else { runnable[0] };
         s.picks.push(pick);
@@ -311,12 +314,14 @@ struct Tl {
     fault: Cell<Fault>,
     fault_hit: Cell<bool>,
     app: Cell<bool>,
+    budget: Cell<u32>,
+    over_budget: Cell<bool>,
 }
 
 thread_local! {
     static TL: Tl = const { Tl {
         world: RefCell::new(None), tid: Cell::new(0), busy: Cell::new(false), op: Cell::new(0),
-        idx: Cell::new(0), steps: Cell::new(0), fault: Cell::new(Fault::None), fault_hit: Cell::new(false), app: Cell::new(false),
+        idx: Cell::new(0), steps: Cell::new(0), fault: Cell::new(Fault::None), fault_hit: Cell::new(false), app: Cell::new(false), budget: Cell::new(0), over_budget: Cell::new(false),
     } };
 }
 
@@ -372,6 +377,20 @@ pub fn set_fault(f: Fault) {
 
 pub fn fault_was_hit() -> bool {
     TL.with(|t| t.fault_hit.get())
+}
+
+/// Step budget for the current operation (0 = unlimited). Once exceeded, every further call of
+/// the operation fails with EIO so that an unbounded retry loop terminates, and the overrun is
+/// remembered (`budget_exceeded`).
+pub fn set_step_budget(b: u32) {
+    TL.with(|t| {
+        t.budget.set(b);
+        t.over_budget.set(false);
+    });
+}
+
+pub fn budget_exceeded() -> bool {
+    TL.with(|t| t.over_budget.get())
 }
 
 pub fn op_calls() -> u32 {
@@ -567,7 +586,12 @@ fn prologue(describe: impl FnOnce(&World) -> Option<Desc>) -> Outcome {
         if desc.class != Class::Data {
             t.steps.set(t.steps.get() + 1);
         }
-        (t.tid.get(), idx, t.fault.get())
+        let mut fault = t.fault.get();
+        if t.budget.get() > 0 && t.steps.get() > t.budget.get() {
+            t.over_budget.set(true);
+            fault = Fault::Inject(idx, libc::EIO);
+        }
+        (t.tid.get(), idx, fault)
     });
     if w.scheduling && (desc.class != Class::Data || w.yield_data) {
         let mut d = format!("{} {}", desc.call, if desc.path.is_empty() { format!("fd{}", desc.fd) } else { desc.path.clone() });
